@@ -153,7 +153,7 @@ def _has_optional_constructed(desc):
     from simkit import universe as U
     if desc['k'] in ('SEQ', 'SET'):
         for f in desc['fields']:
-            if f['opt'] != 'R' and f['d']['k'] in ('SEQ', 'SET', 'SEQOF', 'SETOF'):
+            if f['opt'] != 'R' and U.has_kind(f['d'], ('SEQ', 'SET', 'SEQOF', 'SETOF')):
                 return True
     return any(_has_optional_constructed(c) for c in U.children(desc))
 
@@ -167,7 +167,10 @@ def f15(mod, plan, viol):
 
 @classifier('f16_empty_optional_constructed_omitted')
 def f16(mod, plan, viol):
-    return (viol['sig'][0] == 'reencoding-decodes-to-other-value' and _c10_family(plan) in ('cer', 'der')
+    # the ifNotEmpty option leaks into the encoding of everything nested in the OPTIONAL component, so
+    # empty containers deeper inside are dropped too; with a SIZE constraint the re-encoding is then refused
+    return (viol['sig'][0] in ('reencoding-decodes-to-other-value', 'reencoding-not-decodable')
+            and _c10_family(plan) in ('cer', 'der')
             and _has_optional_constructed(plan['workload']['desc']) and _c10_clean_under_ber(mod, plan))
 
 
